@@ -9,11 +9,11 @@ def main():
     text = '''### 8.5 Seeded changes (independent sub-agents) and which checks catch them
 
 %d changes written by %s sub-agents that were given only the text of one property and a scratch worktree (round 1: two per property for all
-20 properties; round 2: eight properties again with a request for larger shapes, unusual parameter combinations, cooperating edits or
-AVX512-only branches).  Each was confirmed by `seedtest.sh` in a fresh worktree (applies to HEAD, the repository suite passes 30/30 with it,
+20 properties; round 2: all 20 properties again with a request for larger shapes, unusual parameter combinations, cooperating edits at two
+sites, narrow numeric windows other than non-canonical operands, or AVX512-only branches).  Each was confirmed by `seedtest.sh` in a fresh worktree (applies to HEAD, the repository suite passes 30/30 with it,
 its demonstration fails with it and passes without it), then applied to /repo, the checks were run, and /repo was restored.  All are archived
 under `seeded/<name>/` (patch.diff, demonstration, build.sh, README.txt, meta.json); `seedcheck.sh` re-runs them all as a regression (every
-one must give exit 1 with a VIOLATION line).  The notes column records what the first version of a check did when it did not catch the
+one must give exit 1 with a VIOLATION line, except the one change documented as NOT CAUGHT, which no property covers).  The notes column records what the first version of a check did when it did not catch the
 change and what was strengthened; none of these changes is ever committed to /repo.
 
 | seeded change | breaks | needs to manifest | caught by (quick tier) | notes |
@@ -26,8 +26,13 @@ keep the run going with a recorded "assumption not implied" event, ask the solve
 the callee, lift them to inputs (operand fills, first-half inversion of the permutation, identity-like coefficient patterns, sparse symbolic
 positions) and confirm natively; (2) the two outright misses were a state family fixed by hand (C19: now a computed closure) and a parameter
 left at a single value (nThreads in C03, nblock in the extendPol race classes); (3) sizes matter: n = 128 with nphase = 3 and inputs longer
-than 65536 elements are now in the quick tier because two round-2 changes needed exactly those.
-''' % (len(rows), 'twenty-eight', '\n'.join(rows))
+than 65536 elements are now in the quick tier because two round-2 changes needed exactly those; column counts 5 and 7 (a column-block remainder
+of two needs five columns) and size classes derived from the comparison constants found in the code (batchInverse > 1024) came from the second
+half of round 2; (4) histories in C19 now include calls with a caller-provided buffer; (5) a check must never turn "the code is organised
+differently from what I expect" into a verdict: the structural expectations of C09 (one inversion, inverted value = norm), C10 (textbook Euclid
+loop, forwarding wrappers) and C15 (which string reaches GMP) now lead to a structure-independent argument or to native differential runs, and
+are violations only when a concrete call misbehaves (section 8.6).
+''' % (len(rows), 'forty', '\n'.join(rows))
     p = os.path.join(V, 'DESIGN.md'); s = open(p).read()
     i = s.find('### 8.5 Seeded changes')
     if i >= 0: s = s[:i].rstrip() + '\n\n'
